@@ -79,7 +79,18 @@ def reserved_names(run, model, exact_only=False):
                             continue
                         for v in str_lits(e):
                             names.add(v)
-        for c in S.calls(f.body, "to_string_fn"):
+        # helpers of runtime.rs that build a goast::Fn named after their first &str parameter (to_string_fn and friends)
+        ctor_helpers = set()
+        for g in model.fns(RUNTIME):
+            if g.body is None:
+                continue
+            ps = [p_ for p_ in g.params() if not p_["self"]]
+            if ps and "str" in (ps[0]["ty"] or "") and ps[0]["pat"].get("name"):
+                pn = ps[0]["pat"]["name"]
+                for st in S.find(g.body, "Struct"):
+                    if st["segs"][-1] == "Fn" and any(fl["name"] == "name" and pn in S.idents(fl["expr"]) for fl in st["fields"]):
+                        ctor_helpers.add(g.name)
+        for c in S.calls(f.body, *(ctor_helpers | {"to_string_fn"})):
             if c["k"] == "Call" and c["args"] and c["args"][0]["k"] == "Lit":
                 names.add(c["args"][0]["value"])
     return {n for n in names if re.fullmatch(r"[A-Za-z_][A-Za-z0-9_]*", n)}
